@@ -29,6 +29,10 @@ type vhSvc struct {
 	okAt     int    // attempt number that succeeded (0 = none yet)
 	outcomes []bool // outcome of attempt k, drawn up front (the push goroutines run concurrently)
 	failText string // text of the INSERT error
+	// second chunk of the same request (bodies above ~1 MB are parsed into several chunks)
+	attempts1, attempts2 int
+	outcomes2            []bool
+	ok2                  bool
 }
 
 // vhResp records what the handler writes to the client.
@@ -57,9 +61,19 @@ func (w *vhResp) WriteHeader(code int) {
 
 func (s *vhSvc) Request(req helpers.SizeGetter, mode int) *promise.Promise[uint32] {
 	s.attempts++
-	if s.outcomes[s.attempts-1] {
+	if r, ok := req.(vhReq); ok && r.chunk == 1 {
+		// the second parsed chunk of the request: its own outcome sequence
+		s.attempts2++
+		if s.outcomes2[s.attempts2-1] {
+			s.ok2 = true
+			return promise.Fulfilled[uint32](nil, 0)
+		}
+		return promise.Fulfilled[uint32](errors.New(s.failText), 0)
+	}
+	s.attempts1++
+	if s.outcomes[s.attempts1-1] {
 		if s.okAt == 0 {
-			s.okAt = s.attempts
+			s.okAt = s.attempts1
 		}
 		return promise.Fulfilled[uint32](nil, 0)
 	}
@@ -67,7 +81,7 @@ func (s *vhSvc) Request(req helpers.SizeGetter, mode int) *promise.Promise[uint3
 }
 func (s *vhSvc) GetNodeName() string { return "n" }
 
-type vhReq struct{}
+type vhReq struct{ chunk int }
 
 func (vhReq) GetSize() int64 { return 8 }
 
@@ -92,9 +106,13 @@ func VH_C01_handler() {
 	failText := []string{"insert failed", "write tcp 10.0.0.1:1->10.0.0.2:9000: write: connection reset by peer",
 		"connection reset by peer"}[vrt.Choice("insert-error-text", 3)]
 	ts, spl := &vhSvc{name: "series", failText: failText}, &vhSvc{name: "samples", failText: failText}
+	twoChunks := vrt.Bool("body-parsed-into-two-chunks")
 	for k := 0; k < 3; k++ {
 		ts.outcomes = append(ts.outcomes, vrt.Bool("series-insert-succeeds"))
 		spl.outcomes = append(spl.outcomes, vrt.Bool("samples-insert-succeeds"))
+		if twoChunks {
+			spl.outcomes2 = append(spl.outcomes2, vrt.Bool("second-chunk-samples-insert-succeeds"))
+		}
 	}
 	ctx := context.WithValue(context.Background(), "tsService", service.IInsertServiceV2(ts))
 	ctx = context.WithValue(ctx, "splService", service.IInsertServiceV2(spl))
@@ -111,6 +129,9 @@ func VH_C01_handler() {
 				return
 			}
 			ch <- &model.ParserResponse{TimeSeriesRequest: vhReq{}, SamplesRequest: vhReq{}}
+			if twoChunks {
+				ch <- &model.ParserResponse{SamplesRequest: vhReq{chunk: 1}}
+			}
 		}()
 		return ch
 	}
@@ -124,14 +145,15 @@ func VH_C01_handler() {
 	if err == nil {
 		vrt.Assert(ts.okAt > 0, "success-only-if-the-series-part-was-inserted")
 		vrt.Assert(spl.okAt > 0, "success-only-if-the-samples-part-was-inserted")
+		vrt.Assert(!twoChunks || spl.ok2, "success-only-if-every-chunk-was-inserted")
 	} else {
-		vrt.Assert(ts.okAt == 0 || spl.okAt == 0, "error-only-if-some-part-was-never-inserted")
+		vrt.Assert(ts.okAt == 0 || spl.okAt == 0 || (twoChunks && !spl.ok2), "error-only-if-some-part-was-never-inserted")
 		// the status the client sees for that error (net/http answers 200 when the handler writes nothing)
 		w := &vhResp{}
 		ErrorHandler(w, r, err)
 		vrt.Assert(w.status >= 400, "failed-inserts-are-answered-with-an-error-status")
 	}
-	vrt.Assert(ts.attempts <= attempts && spl.attempts <= attempts, "no-more-attempts-than-configured")
+	vrt.Assert(ts.attempts1 <= attempts && spl.attempts1 <= attempts && spl.attempts2 <= attempts, "no-more-attempts-than-configured")
 	_ = time.Second
 	vrt.Reach("answered")
 }
